@@ -161,6 +161,9 @@ class KCase(Case):
             body = "%s %s %s" % (hexs(a["name"]), hexs(a["pk"]), hexs(a["sk"]))
         elif op == "chpass_seq":
             body = "%s %s %s" % (hexs(a["locked"]), hexs(a["pw0"]), ",".join("%s:%s" % (p or "-", s) for p, s in a["steps"]))
+        elif op == "parse":
+            # argv: list of hex strings (complete argv incl. the program name)
+            body = " ".join([str(len(a["argv"]))] + [(x or "-") for x in a["argv"]])
         else:
             raise ValueError(op)
         return "%s %s %s" % (self.id, op, body)
@@ -186,6 +189,10 @@ class KCase(Case):
             return "run_sk_unlock T %s %s" % (g_text(a["s"]), gb(a["pw"]))
         if op == "serialize_key":
             return "run_serialize_key %s %s %s" % (g_text(a["name"]), g_text(a["pk"]), g_text(a["sk"]))
+        if op == "parse":
+            if a.get("voc") is not None:
+                return "run_cli_parse (av0 :: [%s])" % "; ".join("av%d" % t for t in a["voc"])
+            return "run_cli_parse [%s]" % "; ".join(g_text(bytes.fromhex(x)) for x in a["argv"])
         if op == "chpass_seq":
             steps = "; ".join("(%s, %s)" % (gb(bytes.fromhex(p)), gb(bytes.fromhex(s))) for p, s in a["steps"])
             return "run_chpass_seq T %s %s [%s]" % (g_text(a["locked"]), gb(a["pw0"]), steps)
@@ -225,7 +232,11 @@ def kparse_result(c, line):
     op = c.op
     code, out, entries = 999, b"", None
     msg = unhex(kv["msg"]).decode("utf-8", "replace") if "msg" in kv else ""
-    if o == "panic":
+    extra = b""
+    if op == "parse" and o == "ok":
+        code, out, extra = parse_reply_obs(kv)
+        o = "ok:" + kv.get("cmd", "?")
+    elif o == "panic":
         code = 1
     elif o == "err" and kv.get("kind") == "ParseConfig":
         code = perr_code(msg)
@@ -257,8 +268,37 @@ def kparse_result(c, line):
         code = {"err:Decrypt": 123, "err:Length": 124, "err:Format": 125}[o]
     elif op == "serialize_key" and o in ("err:TryFromPk", "err:TryFromSk"):
         code = 133 if o == "err:TryFromPk" else 134
-    return {"id": parts[0], "code": code, "outcome": o, "out": out, "consumed": 0, "trace": [], "extra": b"",
-            "raw": line, "entries": entries, "msg": msg}
+    return {"id": parts[0], "code": code, "outcome": o, "out": out, "consumed": 0, "trace": [], "extra": extra,
+            "raw": line, "entries": entries, "msg": msg, "kv": kv}
+
+
+PARSE_KIND = {"help": 21, "version": 22, "encrypt": 23, "decrypt": 24, "key_generate": 25, "key_change_pass": 26,
+              "key_extract_pub": 27, "pass_encrypt": 28, "pass_decrypt": 29, "usage": 30, "argerr": 31}
+PARSE_FIELDS = {"encrypt": ["?infile", "to", "from", "?outfile", "?keyring", "!env_pass"],
+                "decrypt": ["?infile", "to", "?outfile", "?keyring", "!env_pass"],
+                "key_generate": ["?outfile", "!env_pass"], "key_change_pass": ["private_key", "!env_pass"],
+                "key_extract_pub": ["private_key", "!env_pass"], "pass_encrypt": ["?infile", "?outfile", "!env_pass"],
+                "pass_decrypt": ["?infile", "?outfile", "!env_pass"]}
+
+
+def parse_reply_obs(kv):
+    """the driver's `parse` reply in the canonical form of Run/RunCli.v::parse_obs"""
+    cmd = kv.get("cmd", "?")
+    code = PARSE_KIND.get(cmd, 999)
+    if cmd == "usage":
+        return code, unhex(kv.get("msg", "-")), unhex(kv.get("full", "-"))
+    if cmd == "argerr":
+        return code, b"", unhex(kv.get("full", "-"))
+    out = b""
+    for f in PARSE_FIELDS.get(cmd, []):
+        if f[0] == "?":
+            v = kv.get(f[1:], "none")
+            out += (b"N" if v == "none" else b"S" + unhex(v)) + b"\x00"
+        elif f[0] == "!":
+            out += kv.get(f[1:], "?").encode() + b"\x00"
+        else:
+            out += unhex(kv.get(f, "-")) + b"\x00"
+    return code, out, b""
 
 
 def run_impl_k(cases, timeout=900):
@@ -303,6 +343,19 @@ class KProp(Prop):
         ctx.distribution[key] = ctx.distribution.get(key, 0) + n
 
     def run_kcases(self, ctx, cases, model=True, prelude="", tag=None):
+        k_run_cases(ctx, cases, model, prelude, tag)
+
+    def replay(self, ctx, payload):
+        return k_replay(ctx, payload)
+
+
+MODEL_IMPORT = " RunKeyring RunCli"
+
+
+def k_run_cases(ctx, cases, model=True, prelude="", tag=None):
+    """run cases on the clidrv driver (synthetic cases bring their own result), evaluate the direct oracles, compare with
+    the model; fills ctx like Prop.run_cases.  Usable from any Prop (C09 calls it for the argv half)."""
+    if True:
         if not cases:
             return
         run_impl_k(cases)
@@ -331,11 +384,11 @@ class KProp(Prop):
         if model:
             table = kdf_table_par(ctx.bin, cases)
             tg = tag or ctx.pid
-            log = vlib.run_model(cases, table, tg, extra_import=" RunKeyring", prelude=prelude)
+            log = vlib.run_model(cases, table, tg, extra_import=MODEL_IMPORT, prelude=prelude)
             bad = [c for c in cases if c.agree is not True]
             ctx.agreed += len(cases) - len(bad)
             if bad:
-                shown = vlib.run_model(bad[:6], table, tg + "s", extra_import=" RunKeyring", prelude=prelude, show=True)
+                shown = vlib.run_model(bad[:6], table, tg + "s", extra_import=MODEL_IMPORT, prelude=prelude, show=True)
                 for c in bad[:20]:
                     ctx.disagreements.append({"input": c.full(), "implementation": c.result["raw"][:600],
                                               "implementation_code": c.result["code"],
@@ -350,7 +403,9 @@ class KProp(Prop):
                 d["implementation"] = c.result["outcome"]
                 ctx.samples.append(d)
 
-    def replay(self, ctx, payload):
+
+def k_replay(ctx, payload):
+    if True:
         d = payload["input"]
         if d.get("kind") == "proc":
             return {"holds": None, "note": "process-level case: re-run the listed commands", "commands": d.get("commands")}
@@ -359,12 +414,26 @@ class KProp(Prop):
             if k in ("op", "tags"):
                 continue
             a[k] = bytes.fromhex(v) if isinstance(v, str) else v
+        if d["op"] == "cli":
+            c = CliCase(d["label"], d["argv"], {k: bytes.fromhex(v) for k, v in d["files"].items()},
+                        pw=None if d["pw"] is None else bytes.fromhex(d["pw"]), npw=None if d["npw"] is None else bytes.fromhex(d["npw"]),
+                        keyring_env=d["keyring_env"], stdin=bytes.fromhex(d["stdin"]), rnd=bytes.fromhex(d["rnd"]), watch=d["watch"])
+            root = tempfile.mkdtemp(prefix="kv_replay_", dir="/tmp")
+            try:
+                exec_cli_cases([c], root)
+            finally:
+                shutil.rmtree(root, ignore_errors=True)
+            c.id = "1"
+            table = kdf_table_par(ctx.bin, [c])
+            vlib.run_model([c], table, ctx.pid + "r", extra_import=MODEL_IMPORT, prelude=cli_prelude())
+            return {"holds": bool(c.agree) and nocrash(c.result) is None, "implementation": c.result["raw"], "model_agrees": c.agree,
+                    "model": model_expect_case(ctx, c), "expected": payload.get("expected")}
         c = KCase(d["op"], **a)
         if c.op == "chpass_seq":
             return {"holds": None, "note": "synthetic history: re-run the check with the recorded seed"}
         run_impl_k([c])
         table = kdf_table_par(ctx.bin, [c])
-        vlib.run_model([c], table, ctx.pid + "r", extra_import=" RunKeyring")
+        vlib.run_model([c], table, ctx.pid + "r", extra_import=MODEL_IMPORT)
         return {"holds": bool(c.agree) and nocrash(c.result) is None, "implementation": c.result["raw"][:1000],
                 "model_agrees": c.agree, "expected": payload.get("expected")}
 
@@ -1099,7 +1168,8 @@ class ProcProp(KProp):
     """process-level property: direct oracles; `model_expect` is the hook for a future CLI model"""
 
     def model_expect(self, world, argv, env=None, stdin=None):
-        """-> None (no model yet) or (exit, {path: bytes|None}, stdout)"""
+        """per-run hook of the direct checks: None.  The CLI model (Model/CliGlue.v) is evaluated in BATCHES on small worlds
+        by model_cli_part / model_expect_case (one coqc per run would cost seconds); see c12_model_cases etc."""
         return None
 
     def viol(self, ctx, scenario, commands, expected, observed, key=None):
@@ -1141,13 +1211,15 @@ class C16(ProcProp):
             "random stream compared byte for byte with lock_private_key/serialize_key; secrets searched in every output; "
             "non-trivial = all")
     assumptions = ["fresh salts come from the operating system's generator: distinctness is observed per history, not proved",
-                   "the CLI process is judged by direct oracles only (no CLI model yet); its building blocks lock/unlock/encode "
+                   "the CLI process is judged by direct oracles and, for 16 change-pass / extract-pub / generate runs, compared with the CLI model; its building blocks lock/unlock/encode "
                    "are compared with the model in-process"]
 
     def explore(self, ctx):
         cases = inproc_histories(self, ctx, 20 if ctx.thorough() else 8)
         self.run_kcases(ctx, cases)
         self.proc_histories(ctx, 24 if ctx.thorough() else 8)
+        # the process against the CLI model (change-pass / extract-pub / generate to stdout)
+        model_cli_part(ctx, lambda ctx, mw, root: c16_model_cases(ctx, mw))
         ctx.search_note = "direct oracle over all %d cases" % ctx.evaluations
 
     def proc_histories(self, ctx, nh):
@@ -1331,7 +1403,8 @@ class C14(ProcProp):
             "file parses (driver kr_parse), all earlier and all generated entries are present in order, every generated key "
             "unlocks with its password to the key whose public key is the PublicKey line; encrypt/decrypt by name; "
             "non-trivial = every run")
-    assumptions = ["the CLI process is judged by direct oracles only (no CLI model yet)"]
+    assumptions = ["the histories are judged by direct oracles; in addition every step of 4 (thorough 6) short histories is compared with the CLI "
+                   "model (Model/CliGlue.v::real_cli_main with the injected random stream), each step started from the real file of the previous one"]
 
     def initial_states(self, ctx):
         ks = make_keys(ctx, 2)
@@ -1368,6 +1441,8 @@ class C14(ProcProp):
         finally:
             w.close()
         ctx.search_note = "direct oracle over %d histories" % len(plans)
+        # every generation step against the CLI model, started from the real file of the previous step
+        model_cli_part(ctx, c14_model_cases)
 
     def one_history(self, w, pl):
         f = "kr%d.txt" % pl["h"]
@@ -1592,8 +1667,11 @@ class C12(ProcProp):
             "-o onto an absent path and onto an existing file (file bytes must equal the output, also for the empty plaintext); encrypt / password encrypt over the same wirings with an injected "
             "random stream (byte-identical output) and with real randomness, each decrypted; quick = base wiring + 20 random "
             "wirings per (input, keyring) group, thorough = all 64; non-trivial = every run")
-    assumptions = ["the CLI process is judged by direct oracles only (no CLI model yet); model_expect is the hook for it",
-                   "stderr is compared across wirings by its Error:/Success/Unknown-key lines"]
+    assumptions = ["the full wiring matrix is judged by direct oracles; the CLI model (Model/CliGlue.v::real_cli_main) is compared with the "
+                   "real process on small worlds (150-byte plaintext, 4 wirings x 4 inputs, encrypt / password modes, help, version) and the "
+                   "real argument parser with Model/CliParse.v on exhaustive short argument vectors",
+                   "stderr is compared across wirings by its Error:/Success/Unknown-key lines; against the model by message CLASS",
+                   "the model covers one terminal configuration (no tty) and whole-file reads/writes that succeed"]
 
     def explore(self, ctx):
         rng = ctx.rng
@@ -1672,6 +1750,9 @@ class C12(ProcProp):
         finally:
             w.close()
         ctx.search_note = "direct oracle over %d process runs" % ctx.evaluations
+        # correspondence: the real parser vs Model/CliParse.v; the real process vs Model/CliGlue.v::real_cli_main
+        parse_correspondence(ctx)
+        model_cli_part(ctx, lambda ctx, mw, root: c12_model_cases(ctx, mw))
 
     def one(self, w, j):
         out = "out_%d" % j["i"]
@@ -1791,7 +1872,9 @@ class C13(ProcProp):
             "with sentinel content}; quick: base wiring + 1 random wiring, thorough: + 6 random wirings (stdin input, aliases, "
             "option spellings, keyring by environment); later-chunk failures (damaged / truncated second chunk): the path holds "
             "exactly the first 65536 plaintext bytes; non-trivial = every run")
-    assumptions = ["the CLI process is judged by direct oracles only (no CLI model yet); model_expect is the hook for it"]
+    assumptions = ["all causes x wirings are judged by direct oracles; one run per failure-cause class x {absent, sentinel} is compared with the "
+                   "CLI model (exit code, message class, stdout, content of the output path)",
+                   "later-chunk failures (files over 64 KiB) are not evaluated in the model: too large for vm_compute"]
 
     def causes(self, w):
         """(command, cause, builder(out, cfg) -> (argv, env, stdin))"""
@@ -2037,6 +2120,8 @@ class C13(ProcProp):
         finally:
             w.close()
         ctx.search_note = "direct oracle over %d process runs" % ctx.evaluations
+        # one run per failure-cause class x {absent, sentinel} against the CLI model
+        model_cli_part(ctx, lambda ctx, mw, root: c13_model_cases(ctx, mw))
 
     def one(self, w, j):
         o = "o_%d" % j["i"]
@@ -2060,3 +2145,644 @@ class C13(ProcProp):
 
 
 props.REGISTRY[C13.id] = C13()
+
+
+# =========================================================================== argument parsing vs Model/CliParse.v
+# (the argv half of C09 "never a panic" and the spelling independence of C12)
+PARSE_VOCAB = ["encrypt", "enc", "decrypt", "dec", "key", "gen", "generate", "change-pass", "extract-pub", "password", "pass",
+               "-t", "--to", "-t=x", "--to=x", "-to", "-o", "--output", "-k", "--keyring=k", "-f", "--from", "--env-pass", "-env-pass",
+               "-h", "--help", "-v", "--version", "x", "file", "--", "-", "", "-tx", "--tox"]
+TOP_COMMANDS = ["encrypt", "enc", "decrypt", "dec", "key", "password", "pass"]
+
+
+def hx_args(args):
+    return [a.encode("utf-8").hex() if isinstance(a, str) else a.hex() for a in args]
+
+
+def parse_prelude():
+    return "".join("Definition av%d : list N := %s.\n" % (i, g_text(t.encode("utf-8"))) for i, t in enumerate(["kestrel"] + PARSE_VOCAB))
+
+
+def spell_variants(rng, inv):
+    """inv = (cmd words, [(option name, value|None)], [free arguments]); all renderings must parse to the same options"""
+    words, opts, free = inv
+    ALIAS = {"encrypt": "enc", "decrypt": "dec", "password": "pass", "generate": "gen"}
+    LONG = {"t": "to", "f": "from", "o": "output", "k": "keyring"}
+    out = []
+    for spell in ("short", "long", "eq", "dash1", "dash1eq", "mixed"):
+        for alias in (False, True):
+            w = [ALIAS.get(x, x) if alias else x for x in words]
+            o = []
+            for name, val in opts:
+                if val is None:
+                    o.append([("--" if spell != "dash1" or rng.random() < 0.5 else "-") + name])
+                    continue
+                sp = rng.choice(["short", "long", "eq", "dash1", "dash1eq"]) if spell == "mixed" else spell
+                o.append({"short": ["-" + name, val], "long": ["--" + LONG[name], val], "eq": ["--" + LONG[name] + "=" + val],
+                          "dash1": ["-" + LONG[name], val], "dash1eq": ["-" + LONG[name] + "=" + val]}[sp])
+            rng.shuffle(o)
+            flat = [x for g in o for x in g]
+            # free arguments may sit before, between or after the options (FloatingFrees)
+            pos = rng.randint(0, len(o))
+            flat = [x for g in o[:pos] for x in g] + list(free) + [x for g in o[pos:] for x in g]
+            out.append(["kestrel"] + w + flat)
+    return out
+
+
+def near_miss_argvs():
+    """near misses of every command word (every proper prefix, extensions, other case, stray blanks / dashes) in command
+    position, followed by a well-formed tail; the exact words are included"""
+    out = []
+    tails = {"encrypt": ["in", "-t", "a", "-f", "b"], "enc": ["in", "-t", "a", "-f", "b"], "decrypt": ["in", "-t", "a"], "dec": ["in", "-t", "a"],
+             "key": ["generate"], "password": ["encrypt", "in"], "pass": ["dec", "in"]}
+    for w in ["encrypt", "enc", "decrypt", "dec", "key", "password", "pass", "gen", "generate", "change-pass", "extract-pub"]:
+        for v in sorted(set([w[:k] for k in range(1, len(w) + 1)] + [w + "x", w + "s", w.upper(), w.capitalize(), " " + w, w + " ",
+                             w.replace("-", "_"), "-" + w, "--" + w])):
+            if w in tails:
+                out.append(["kestrel", v] + tails[w])
+            elif w in ("gen", "generate"):
+                out.append(["kestrel", "key", v, "-o", "f"])
+            else:
+                out.append(["kestrel", "key", v, "ZWdrMA", "--env-pass"])
+            if w in ("encrypt", "enc", "decrypt", "dec"):
+                out.append(["kestrel", "pass", v, "in"])
+    return out
+
+
+def dispatch_cases(ctx):
+    """the SAME near-miss vectors through the real process: clidrv's `parse` op carries its own copy of try_main's dispatch
+    (harness/clidrv/src/driver.rs), so only a process run exercises main.rs::try_main's `match args[1]` itself"""
+    cases = [CliCase("dispatch " + " ".join(a[1:]), a[1:], {}, pw=b"pw", stdin=b"name\n", rnd=bytes(64), tags=["dispatch-process"], oracle=no_stray)
+             for a in near_miss_argvs()]
+    cases += [CliCase("dispatch " + " ".join(a), a, {}, tags=["dispatch-process"]) for a in
+              ([], ["-h"], ["--help"], ["-v"], ["--version"], ["x", "--help"], ["enc", "-h"], ["-v", "x"], ["--version", "--help"], ["-V"], ["help"])]
+    root = tempfile.mkdtemp(prefix="kv_dispatch_", dir="/tmp")
+    try:
+        exec_cli_cases(cases, root)
+    finally:
+        shutil.rmtree(root, ignore_errors=True)
+    return cases
+
+
+def parse_cases(ctx):
+    rng = ctx.rng
+    V = PARSE_VOCAB
+    full = ctx.thorough()
+    cases = []
+
+    def mk(idx, tag):
+        return KCase("parse", argv=hx_args(["kestrel"] + [V[i] for i in idx]), voc=[i + 1 for i in idx], tags=[tag])
+    n = len(V)
+    cases.append(KCase("parse", argv=[], tags=["argv-empty", "trivial"]))
+    cases.append(KCase("parse", argv=hx_args(["kestrel"]), tags=["argv-len0"]))
+    for a in range(n):
+        cases.append(mk((a,), "argv-len1"))
+        for b in range(n):
+            cases.append(mk((a, b), "argv-len2"))
+    tops = [V.index(t) for t in TOP_COMMANDS]
+    l3 = [(a, b, c) for a in (range(n) if full else tops) for b in range(n) for c in range(n)]
+    if not full:
+        l3 = rng.sample(l3, 2200)
+    cases += [mk(t, "argv-len3") for t in l3]
+    if full:
+        l4 = [(a, b, c, d) for a in tops for b in range(n) for c in range(n) for d in range(n)]
+        cases += [mk(t, "argv-len4") for t in rng.sample(l4, 40000)]
+    # random longer vectors: a command, then options mostly with their values
+    vals = ["x", "file", "a b", "-", "--", "", "=", "k=v", "\u00e9\u3000", "-t", "--help2", "ZWdrMA"]
+    for _ in range(3000 if full else 450):
+        first = rng.choice([["encrypt"], ["enc"], ["decrypt"], ["dec"], ["key", "gen"], ["key", "generate"], ["key", "change-pass"],
+                            ["key", "extract-pub"], ["password", "encrypt"], ["pass", "dec"], ["pass", "enc"], ["password", "decrypt"],
+                            ["key"], ["pass"], ["bogus"]])
+        rest = []
+        for _ in range(rng.randint(0, 6)):
+            r = rng.random()
+            if r < 0.55:
+                o = rng.choice(["-t", "--to", "-to", "-f", "--from", "-o", "--output", "-output", "-k", "--keyring", "--t", "--o", "-tf", "-ot", "--TO"])
+                if rng.random() < 0.3:
+                    rest.append(o + "=" + rng.choice(vals))
+                else:
+                    rest.append(o)
+                    if rng.random() < 0.85:
+                        rest.append(rng.choice(vals))
+            elif r < 0.7:
+                rest.append(rng.choice(["--env-pass", "-env-pass", "--env-pass=1", "--env", "--env-pas"]))
+            elif r < 0.75:
+                rest.append(rng.choice(["-v", "--version", "--hel", "-hh", "--help=1"]))
+            else:
+                rest.append(rng.choice(vals))
+        cases.append(KCase("parse", argv=hx_args(["kestrel"] + first + rest), tags=["argv-random"]))
+    for argv in near_miss_argvs():
+        cases.append(KCase("parse", argv=hx_args(argv), tags=["argv-near-miss"]))
+    # arguments that are not UTF-8: an error value from convert_args, never a panic (no model: it starts after convert_args)
+    nonutf = []
+    for bad in (b"\xff", b"caf\xe9", b"\xc3", b"\xed\xa0\x80", b"-t\xfe"):
+        for pos in (0, 1, 2, 3):
+            argv = [b"kestrel", b"decrypt", b"-t", b"x"]
+            argv[pos] = bad
+
+            def orc(r):
+                return None if r["code"] == 31 else ("an argument that is not UTF-8 is reported as an error value", r["raw"][:200])
+            nonutf.append(KCase("parse", argv=[a.hex() for a in argv], oracle=orc, tags=["argv-not-utf8"]))
+    return cases, nonutf
+
+
+def spelling_cases(ctx):
+    """the same invocation in every spelling: identical parsed options (direct oracle), each also compared with the model"""
+    rng = ctx.rng
+    invs = []
+    for _ in range(60 if ctx.thorough() else 14):
+        kind = rng.choice(["encrypt", "decrypt", "pass-enc", "pass-dec", "gen"])
+        v = lambda: rng.choice(["x", "file", "a b", "k=v", "-", "--", "\u00e9", "-o", "--to"])
+        fl = [("env-pass", None)] if rng.random() < 0.6 else []
+        free = [rng.choice(["in.txt", "-", "x y"])] if rng.random() < 0.6 else []
+        if kind == "encrypt":
+            opts = [("t", v()), ("f", v())] + ([("o", v())] if rng.random() < 0.6 else []) + ([("k", v())] if rng.random() < 0.6 else [])
+            invs.append((["encrypt"], opts + fl, free))
+        elif kind == "decrypt":
+            opts = [("t", v())] + ([("o", v())] if rng.random() < 0.6 else []) + ([("k", v())] if rng.random() < 0.6 else [])
+            invs.append((["decrypt"], opts + fl, free))
+        elif kind == "gen":
+            invs.append((["key", "generate"], ([("o", v())] if rng.random() < 0.7 else []) + fl, []))
+        else:
+            invs.append((["password", "encrypt" if kind == "pass-enc" else "decrypt"], ([("o", v())] if rng.random() < 0.7 else []) + fl, free))
+    groups = []
+    for inv in invs:
+        # a value that begins with '-' directly after a separate option is taken as the value by getopts as well; but a free
+        # argument beginning with '-' would be an option: keep free arguments plain except the lone "-"
+        vs = spell_variants(rng, inv)
+        groups.append([KCase("parse", argv=hx_args(a), tags=["spelling"]) for a in vs])
+    base = [g[0] for g in groups]
+    run_impl_k(base)
+    cases = []
+    for g in groups:
+        b = g[0].result
+        cases.append(g[0])
+        for c in g[1:]:
+            def same(r, b=b, a0=g[0].a["argv"]):
+                if (r["code"], r["out"]) != (b["code"], b["out"]):
+                    return ("long / short / '=' / single-dash spellings and aliases of one invocation parse to the same options as %r: %s"
+                            % ([bytes.fromhex(x).decode() for x in a0], b["raw"][:200]), r["raw"][:300])
+                if not (23 <= r["code"] <= 29):
+                    return ("a well-formed invocation is accepted", r["raw"][:300])
+                return None
+            c.expect_fn = same
+            cases.append(c)
+    return cases
+
+
+def parse_correspondence(ctx):
+    """entry point for C09 (props.py) and C12"""
+    cases, nonutf = parse_cases(ctx)
+    cases += spelling_cases(ctx)
+    cases += dispatch_cases(ctx)
+    k_run_cases(ctx, cases, model=True, prelude=parse_prelude() + cli_prelude(), tag=ctx.pid + "p")
+    k_run_cases(ctx, nonutf, model=False)
+    ctx.distribution["parse:model-compared"] = ctx.distribution.get("parse:model-compared", 0) + len(cases)
+
+
+# =========================================================================== the whole program vs Model/CliGlue.v::real_cli_main
+def cli_texts():
+    """(help text, version text) as the program prints them: USAGE and CARGO_PKG_VERSION read from the sources"""
+    import re
+    src = open(os.path.join(vlib.REPO, "src", "cli", "src", "main.rs"), encoding="utf-8").read()
+    m = re.search(r'const USAGE: &str = "(.*?)";', src, re.S)
+    toml = open(os.path.join(vlib.REPO, "src", "cli", "Cargo.toml"), encoding="utf-8").read()
+    v = re.search(r'^version = "(.*?)"', toml, re.M)
+    return (m.group(1) if m else "?").encode("utf-8") + b"\n", b"v" + (v.group(1) if v else "?").encode() + b"\n"
+
+
+def cli_prelude():
+    h, v = cli_texts()
+    return "Definition help_txt : bytes := %s.\nDefinition ver_txt : bytes := %s.\n" % (vlib.g_bytes(h), vlib.g_bytes(v))
+
+
+STATUS_MSG = [  # (prefix of the text after "Error: ", status class of Run/RunCli.v)
+    ("Input and output files must be different.", 10), ("Input file '", 11), ("Specify a keyring with -k", 12),
+    ("Could not open keyring:", 13), ("Invalid keyinrg encoding", 14), ("Recipient key '", 15), ("Sender key '", 16),
+    ("Public key checksum did not match.", 21), ("Invalid public key length.", 22),
+    ("--env-pass requires setting the KESTREL_PASSWORD", 30), ("--env-pass with change-pass requires setting the KESTREL_NEW_PASSWORD", 31),
+    ("Key unlock failed.", 33), ("Failed to unlock the private key.", 43), ("Invalid private key length.", 44),
+    ("Unsupported private key file format.", 45), ("Plaintext read failed", 62), ("Ciphertext write failed", 63),
+    ("Key exchange failed", 64), ("Chunk length is too large", 71), ("Ciphertext read failed", 74), ("Plaintext write failed", 75),
+    ("Invalid file format.", 76), ("This is a password encrypted file.", 77), ("This is a key encrypted file.", 77),
+    ("Decrypt failed. Check key used.", 90), ("Decrypt failed. Check password used.", 91),
+    ("stream did not contain valid UTF-8", 92), ("Name must be between 1 and 128 characters.", 93),
+    ("Invalid Private Key length", 94), ("Could not decode private key", 94)]
+
+
+def classify_run(argv, rc, out, err, help_txt, ver_txt):
+    """the real process's result -> (status class, status text) in the vocabulary of Run/RunCli.v"""
+    t = err.decode("utf-8", "replace")
+    if rc == 101 or "panicked at" in t:
+        return 1, b""
+    i = t.find("Error: ")
+    if rc == 0:
+        for l in t.splitlines():
+            if l.startswith("Success. File from: "):
+                return 3, l[len("Success. File from: "):].encode("utf-8")
+            if l.startswith("Unknown key: "):
+                return 4, l[len("Unknown key: "):].encode("utf-8")
+        if out == help_txt:
+            return 201, b""
+        if out == ver_txt:
+            return 202, b""
+        return 0, b""
+    if i < 0:
+        return 998, b""
+    m = t[i + len("Error: "):]
+    m = m[:-1] if m.endswith("\n") else m
+    dec = len(argv) > 0 and argv[0] in ("dec", "decrypt")
+    if m.endswith("\nFor more info use '--help'"):
+        return 203, m.encode("utf-8")
+    if m.startswith(PERR_PREFIX):
+        return perr_code(m), b""
+    if m.startswith("Key '") and m.endswith("' not found."):
+        return 18, b""
+    if m.startswith("Key '") and m.endswith("' needs a private key."):
+        return 19, b""
+    if m.startswith("Sender '") and m.endswith("' needs a private key."):
+        return 17, b""
+    if "(os error 6)" in m:
+        return 32, b""
+    if m == "Decrypt failed":
+        return 78, b""
+    if m == "Diffie-Hellman operation failed":
+        return (79 if dec else 50), b""
+    if m.startswith("Expected end of stream. Found extra data"):
+        return (73 if (dec or argv[:2] in (["pass", "dec"], ["pass", "decrypt"], ["password", "dec"], ["password", "decrypt"])) else 61), b""
+    for pre, code in STATUS_MSG:
+        if m.startswith(pre):
+            return code, b""
+    return 997, b""
+
+
+def render_paths(files, watch):
+    out = b""
+    for p in watch:
+        c = files.get(p)
+        out += b"\x00" if c is None else b"\x01" + len(c).to_bytes(4, "big") + c
+    return out
+
+
+class CliCase(KCase):
+    """one run of the whole program: files (name -> bytes) in the working directory, environment, stdin, argv (after the
+    program name), random stream.  Implementation = the clidrv binary as a process; model = RunCli.run_cli."""
+    synthetic = True
+
+    def __init__(self, label, argv, files, pw=None, npw=None, keyring_env=None, stdin=b"", rnd=b"", watch=(), tags=(), oracle=None):
+        a = {"label": label, "argv": list(argv), "files": {k: v.hex() for k, v in files.items()},
+             "pw": None if pw is None else pw.hex(), "npw": None if npw is None else npw.hex(), "keyring_env": keyring_env,
+             "stdin": stdin.hex(), "rnd": rnd.hex(), "watch": sorted(set(list(watch) + list(files)))}
+        Case.__init__(self, "cli", tags=list(tags), oracle=oracle, **a)
+
+    def files(self):
+        return {k: bytes.fromhex(v) for k, v in self.a["files"].items()}
+
+    def rust_line(self):
+        return "%s cli %s" % (self.id, hashlib.sha256(repr(sorted((k, repr(v)) for k, v in self.a.items())).encode()).hexdigest())
+
+    def env(self):
+        e = {}
+        a = self.a
+        if a["pw"] is not None:
+            e["KESTREL_PASSWORD"] = bytes.fromhex(a["pw"]).decode("utf-8")
+        if a["npw"] is not None:
+            e["KESTREL_NEW_PASSWORD"] = bytes.fromhex(a["npw"]).decode("utf-8")
+        if a["keyring_env"] is not None:
+            e["KESTREL_KEYRING"] = a["keyring_env"]
+        if a["rnd"]:
+            e["KESTREL_VERIF_RANDOM"] = a["rnd"]
+        return e
+
+    def model_term(self):
+        a = self.a
+        gb = vlib.g_bytes
+        gt = lambda s: g_text(s.encode("utf-8"))
+        go = lambda h: "None" if h is None else "(Some %s)" % gb(bytes.fromhex(h))
+        fs = "; ".join("(%s, %s)" % (gt(k), gb(bytes.fromhex(v))) for k, v in sorted(a["files"].items()))
+        rnd = bytes.fromhex(a["rnd"])
+        r1 = rnd[:32] if len(rnd) >= 32 else bytes(32)
+        r2 = rnd[32:64] if len(rnd) >= 64 else bytes(32)
+        return "run_cli T (mkw [%s] %s %s %s %s) [%s] %s %s help_txt ver_txt [%s]" % (
+            fs, go(a["pw"]), go(a["npw"]), "None" if a["keyring_env"] is None else "(Some %s)" % gt(a["keyring_env"]),
+            gb(bytes.fromhex(a["stdin"])), "; ".join(gt(x) for x in ["kestrel"] + a["argv"]), gb(r1), gb(r2),
+            "; ".join(gt(x) for x in a["watch"]))
+
+    def kdf_need(self):
+        """every (password, salt) the model could ask for: passwords of the environment x salts of every locked key in a file or
+        on the command line, of every kestrel file, and the blocks of the random stream"""
+        a = self.a
+        pws = [bytes.fromhex(x) for x in (a["pw"], a["npw"]) if x is not None]
+        salts = []
+        texts = [bytes.fromhex(v) for v in a["files"].values()] + [x.encode("utf-8") for x in a["argv"]]
+        for t in texts:
+            if t[:3] == b"egk" and len(t) >= 36:
+                salts.append(t[4:36])
+            for tok in t.replace(b"\r", b"\n").replace(b"=", b" = ").split():
+                if len(tok) == 112 and tok[:5] == b"ZWdrM":
+                    d = b64_lenient(tok)
+                    if d is not None and len(d) == 84:
+                        salts.append(d[4:36])
+        rnd = bytes.fromhex(a["rnd"])
+        salts += [rnd[i:i + 32] for i in (0, 32) if len(rnd) >= i + 32]
+        return [(p, s) for p in pws for s in salts]
+
+    def describe(self):
+        a = self.a
+        return {"argv": ["kestrel"] + a["argv"], "env": self.env(), "stdin_hex": a["stdin"][:200], "files": {k: v[:120] for k, v in a["files"].items()},
+                "result": (self.result or {}).get("raw", "")[:300]}
+
+
+def exec_cli_cases(cases, root):
+    """run every case as a real process in its own directory under root; fills c.result (observation of RunCli.run_cli)"""
+    help_txt, ver_txt = cli_texts()
+
+    def one(ic):
+        i, c = ic
+        d = os.path.join(root, "case%d_%s" % (i, hashlib.sha256(c.rust_line().encode()).hexdigest()[:8]))
+        os.makedirs(d)
+        for k, v in c.files().items():
+            with open(os.path.join(d, k), "wb") as f:
+                f.write(v)
+        e = {"PATH": "/usr/bin:/bin", "HOME": d, "LANG": "C.UTF-8"}
+        e.update(c.env())
+        try:
+            pr = subprocess.run([vlib.CLIDRV] + c.a["argv"], env=e, input=bytes.fromhex(c.a["stdin"]), stdout=subprocess.PIPE,
+                                stderr=subprocess.PIPE, start_new_session=True, timeout=120, cwd=d)
+            rc, out, err = pr.returncode, pr.stdout, pr.stderr
+        except subprocess.TimeoutExpired:
+            rc, out, err = 124, b"", b"[timeout]"
+        after = {}
+        for nm in os.listdir(d):
+            p = os.path.join(d, nm)
+            if os.path.isfile(p):
+                with open(p, "rb") as f:
+                    after[nm] = f.read()
+        code, text = classify_run(c.a["argv"], rc, out, err, help_txt, ver_txt)
+        stray = sorted(set(after) - set(c.a["watch"]))
+        c.result = {"id": None, "code": code, "outcome": "exit%d:class%d" % (rc, code), "out": out, "consumed": rc, "trace": [],
+                    "extra": render_paths(after, c.a["watch"]) + text, "entries": None, "msg": "", "after": after, "stray": stray,
+                    "raw": "exit=%d class=%d stdout=%s stderr=%r files=%s" % (rc, code, out[:80].hex(), err.decode("utf-8", "replace")[-200:],
+                                                                           {k: len(v) for k, v in after.items()})}
+        shutil.rmtree(d, ignore_errors=True)
+    with ThreadPoolExecutor(max_workers=NPROC) as ex:
+        list(ex.map(one, list(enumerate(cases))))
+
+
+def no_stray(r):
+    if r.get("stray"):
+        return ("no file other than the named output is created", "new files %r" % r["stray"])
+    return None
+
+
+class ModelWorld:
+    """small key material with KNOWN passwords and salts (so that the kdf table can be filled), files for the model cases"""
+
+    def __init__(self, ctx):
+        names = ["alice", "bob", "carol"]
+        ks = make_keys(ctx, 4)
+        self.pw = {"alice": b"pw-alice", "bob": "b\u00f6b \u2713".encode("utf-8"), "carol": b""}
+        salts = [ctx.rbytes(32) for _ in names]
+        locked = lock_keys([(ks[i][0], self.pw[n], salts[i]) for i, n in enumerate(names)])
+        self.pub = {n: ks[i][2] for i, n in enumerate(names)}
+        self.sk = {n: ks[i][0] for i, n in enumerate(names)}
+        self.block = {n: key_block(n.encode(), ks[i][2], locked[i]) for i, n in enumerate(names)}
+        self.locked = {n: locked[i] for i, n in enumerate(names)}
+        self.dave_pub = ks[3][2]
+        B = self.block
+        pubonly = lambda n: key_block(n.encode(), self.pub[n])
+        self.kr = {"full": B["alice"] + b"\n" + B["bob"] + b"\n" + B["carol"],
+                   "first": pubonly("alice") + b"\n" + B["bob"] + b"\n" + B["carol"],
+                   "last": B["carol"] + b"\n" + B["bob"] + b"\n# the sender comes last\n" + pubonly("alice"),
+                   "absent": B["bob"] + b"\n" + B["carol"]}
+        self.plain = ctx.rbytes(150)
+        self.passpw = "p\u00e4ss".encode("utf-8")
+        self.rnd = ctx.rbytes(64)
+        # authentic files made by the program itself
+        mk = [CliCase("setup-encrypt", ["encrypt", "pt", "-t", "bob", "-f", "alice", "-o", "ct", "-k", "kr", "--env-pass"],
+                      {"pt": self.plain, "kr": self.kr["full"]}, pw=self.pw["alice"], rnd=self.rnd, watch=["ct"]),
+              CliCase("setup-pass-encrypt", ["password", "encrypt", "pt", "-o", "pct", "--env-pass"], {"pt": self.plain},
+                      pw=self.passpw, rnd=self.rnd[:32], watch=["pct"])]
+        root = tempfile.mkdtemp(prefix="kv_mw_", dir="/tmp")
+        try:
+            exec_cli_cases(mk, root)
+        finally:
+            shutil.rmtree(root, ignore_errors=True)
+        self.setup_cases = mk
+        self.ct = mk[0].result["after"].get("ct") or b""
+        self.pct = mk[1].result["after"].get("pct") or b""
+        fl = lambda b, off: b[:off] + bytes([b[off] ^ 0x01]) + b[off + 1:]
+        self.ct_bad1 = fl(self.ct, HDR + 16 + 20) if len(self.ct) > HDR + 40 else self.ct
+        self.pct_bad1 = fl(self.pct, PHDR + 16 + 20) if len(self.pct) > PHDR + 40 else self.pct
+
+
+MW4 = [BASE_WIRING,
+       {"inp": "stdin", "out": "stdout", "kr": "env", "spell": "long", "alias": True, "first": False},
+       {"inp": "arg", "out": "stdout", "kr": "k", "spell": "eq", "alias": False, "first": False},
+       {"inp": "stdin", "out": "o", "kr": "env", "spell": "dash1", "alias": True, "first": True}]
+
+
+def wired_case(label, cmd, cfg, infile, data, files, to=None, frm=None, keyring=None, pw=None, rnd=b"", tags=(), pre=None, out="out"):
+    """a CliCase from the wiring helpers of the direct checks"""
+    argv, env, stdin = wire(cmd, cfg, infile, out, to=to, frm=frm, keyring=keyring, pw=None)
+    fs = dict(files)
+    sin = b""
+    if cfg["inp"] == "stdin":
+        sin = data
+        fs.pop(infile, None)
+    if pre is not None:
+        fs[out] = pre
+    return CliCase(label + " [" + wname(cfg) + "]", argv, fs, pw=pw, keyring_env=env.get("KESTREL_KEYRING"), stdin=sin, rnd=rnd,
+                   watch=[out], tags=list(tags), oracle=no_stray)
+
+
+def c12_model_cases(ctx, mw):
+    cases = list(mw.setup_cases)
+    for c in cases:
+        c.tags = ["model:setup-encrypt"]
+    krs = ["first", "last", "absent"]
+    inputs = [("valid", mw.ct, "bob"), ("bad-chunk1", mw.ct_bad1, "bob"), ("wrong-recipient", mw.ct, "carol"), ("password-file", mw.pct, "bob")]
+    for i, (nm, data, to) in enumerate(inputs):
+        for j, cfg in enumerate(MW4):
+            kr = krs[(i + j) % 3]
+            cases.append(wired_case("decrypt %s kr_%s" % (nm, kr), "decrypt", cfg, "in.ct", data, {"in.ct": data, "kr": mw.kr[kr]}, to=to,
+                                    keyring="kr", pw=mw.pw[to], tags=["model:decrypt-" + nm]))
+    for j, cfg in enumerate(MW4[:2] if not ctx.thorough() else MW4):
+        cases.append(wired_case("decrypt wrong-password kr_full", "decrypt", cfg, "in.ct", mw.ct, {"in.ct": mw.ct, "kr": mw.kr["full"]}, to="bob",
+                                keyring="kr", pw=b"not the password", tags=["model:decrypt-wrong-password"]))
+        cases.append(wired_case("encrypt wrong-password", "encrypt", MW4[3 - j], "pt", mw.plain, {"pt": mw.plain, "kr": mw.kr["full"]}, to="bob",
+                                frm="alice", keyring="kr", pw=b"not the password", rnd=mw.rnd, tags=["model:encrypt-wrong-password"]))
+    for j, cfg in enumerate(MW4[:2] if not ctx.thorough() else MW4):
+        cases.append(wired_case("encrypt", "encrypt", cfg, "pt", mw.plain, {"pt": mw.plain, "kr": mw.kr["full"]}, to="bob", frm="alice",
+                                keyring="kr", pw=mw.pw["alice"], rnd=ctx.rbytes(64), tags=["model:encrypt"]))
+    pcfg = [dict(c, kr="k") for c in MW4]
+    cases.append(wired_case("password encrypt", "pass-encrypt", pcfg[1], "pt", mw.plain, {"pt": mw.plain}, pw=mw.passpw, rnd=ctx.rbytes(32),
+                            tags=["model:pass-encrypt"]))
+    for j, (nm, data, pw) in enumerate([("valid", mw.pct, mw.passpw), ("valid", mw.pct, mw.passpw), ("wrong-password", mw.pct, b"other"),
+                                        ("bad-chunk1", mw.pct_bad1, mw.passpw), ("key-file", mw.ct, mw.passpw)]):
+        cases.append(wired_case("password decrypt %s" % nm, "pass-decrypt", pcfg[j % 4], "in.ct", data, {"in.ct": data}, pw=pw,
+                                tags=["model:pass-decrypt-" + nm]))
+    cases.append(CliCase("help", ["--help"], {}, tags=["model:help"]))
+    cases.append(CliCase("version", ["-v"], {}, tags=["model:version"]))
+    return cases
+
+
+def c13_model_cases(ctx, mw):
+    zero, low8 = cli_ops(["pk_encode " + "00" * 32, "pk_encode e0eb7a7c3b41b8ae1656e3faf19fc46ada098deb9c32b1fd866205165f49b800"])
+    bad = bytearray(mw.dave_pub)
+    bad[-1] = ord("A") if bad[-1] != ord("A") else ord("B")
+    kr = mw.kr["full"] + b"\n" + key_block(b"dave", mw.dave_pub) + b"\n" + key_block(b"zero", unhex(zero["out"])) + b"\n" + key_block(b"badck", bytes(bad))
+    A, Bp = mw.pw["alice"], mw.pw["bob"]
+    ct, pct = mw.ct, mw.pct
+    fl = lambda b, off: b[:off] + bytes([b[off] ^ 0x01]) + b[off + 1:]
+    base = {"kr": kr, "pt": mw.plain, "ct": ct, "pct": pct}
+    D = ["decrypt", "ct", "-t", "bob", "-o", "out", "-k", "kr", "--env-pass"]
+    E = ["encrypt", "pt", "-t", "bob", "-f", "alice", "-o", "out", "-k", "kr", "--env-pass"]
+    sub = lambda argv, a, b: [b if x == a else x for x in argv]
+    L = [  # (class, argv, files override, pw, stdin, rnd)
+        ("bad-arguments", [x for x in D if x not in ("-t", "bob")], {}, Bp, b"", b""),
+        ("bad-arguments:--from", D + ["--from", "alice"], {}, Bp, b"", b""),
+        ("input=output", sub(D, "ct", "out"), {}, Bp, b"", b""),
+        ("missing-input", sub(D, "ct", "nofile"), {}, Bp, b"", b""),
+        ("keyring-unspecified", [x for x in D if x not in ("-k", "kr")], {}, Bp, b"", b""),
+        ("keyring-missing", sub(D, "kr", "nokr"), {}, Bp, b"", b""),
+        ("keyring-malformed", D, {"kr": b"this is not a keyring\n"}, Bp, b"", b""),
+        ("keyring-duplicate-name", D, {"kr": mw.kr["full"] + b"\n" + mw.block["alice"]}, Bp, b"", b""),
+        ("keyring-not-utf8", D, {"kr": kr + b"# caf\xe9\n"}, Bp, b"", b""),
+        ("unknown-key-name", sub(D, "bob", "nobody"), {}, Bp, b"", b""),
+        ("missing-private-key", sub(D, "bob", "dave"), {}, Bp, b"", b""),
+        ("bad-public-key-checksum", sub(E, "bob", "badck"), {}, A, b"", mw.rnd),
+        ("wrong-password", D, {}, b"not the password", b"", b""),
+        ("unset-password-variable", D, {}, None, b"", b""),
+        ("no-terminal", D[:-1], {}, Bp, b"", b""),
+        ("wrong-header:junk", D, {"ct": ctx.rbytes(300)}, Bp, b"", b""),
+        ("wrong-header:empty", D, {"ct": b""}, Bp, b"", b""),
+        ("wrong-header:other-mode", D, {"ct": pct}, Bp, b"", b""),
+        ("corrupted-header", D, {"ct": fl(ct, 50)}, Bp, b"", b""),
+        ("truncated-header", D, {"ct": ct[:100]}, Bp, b"", b""),
+        ("corrupted-first-chunk", D, {"ct": mw.ct_bad1}, Bp, b"", b""),
+        ("corrupted-first-chunk:length", D, {"ct": fl(ct, HDR + 13)}, Bp, b"", b""),
+        ("truncated-first-chunk", D, {"ct": ct[:HDR + 16 + 40]}, Bp, b"", b""),
+        ("appended-data", D, {"ct": ct + b"x"}, Bp, b"", b""),
+        ("refused-key-exchange:decrypt", D, {"ct": ct[:4] + bytes(32) + ct[36:]}, Bp, b"", b""),
+        ("refused-key-exchange:encrypt", sub(E, "bob", "zero"), {}, A, b"", mw.rnd),
+        ("encrypt:unknown-sender", sub(E, "alice", "nobody"), {}, A, b"", mw.rnd),
+        ("encrypt:sender-without-private-key", sub(E, "alice", "dave"), {}, A, b"", mw.rnd),
+        ("encrypt:wrong-password", E, {}, b"nope", b"", mw.rnd),
+        ("pass-encrypt:unset-password", ["password", "encrypt", "pt", "-o", "out", "--env-pass"], {}, None, b"", mw.rnd[:32]),
+        ("pass-decrypt:wrong-password", ["pass", "dec", "pct", "-o", "out", "--env-pass"], {}, b"nope", b"", b""),
+        ("pass-decrypt:key-file", ["pass", "dec", "ct", "-o", "out", "--env-pass"], {}, mw.passpw, b"", b""),
+        ("pass-decrypt:truncated", ["pass", "dec", "pct", "-o", "out", "--env-pass"], {"pct": pct[:PHDR + 20]}, mw.passpw, b"", b""),
+        ("generate:invalid-name", ["key", "generate", "-o", "out", "--env-pass"], {}, b"pw", b"  \t \n", mw.rnd),
+        ("generate:name-129-bytes", ["key", "gen", "-o", "out", "--env-pass"], {}, b"pw", "\u00e9".encode("utf-8") * 64 + b"a\n", mw.rnd),
+        ("generate:name-with-tab", ["key", "gen", "-o", "out", "--env-pass"], {}, b"pw", b"a\tb\n", mw.rnd),
+        ("generate:name-not-utf8", ["key", "gen", "-o", "out", "--env-pass"], {}, b"pw", b"caf\xe9\n", mw.rnd),
+        ("generate:unset-password", ["key", "generate", "-o", "out", "--env-pass"], {}, None, b"newkey\n", mw.rnd),
+        ("generate:bad-option", ["key", "generate", "-o", "out", "--bogus"], {}, b"pw", b"newkey\n", mw.rnd),
+    ]
+    cases = []
+    for (cls, argv, over, pw, sin, rnd) in L:
+        for pre in (None, SENTINEL):
+            fs = dict(base)
+            fs.update(over)
+            if pre is not None:
+                fs["out"] = pre
+            if cls == "input=output" and pre is None:
+                pass          # the path named twice does not exist: the program reports the same-path error first all the same
+            want = pre
+
+            def untouched(r, want=want):
+                got = r["after"].get("out")
+                if got != want:
+                    return ("a failed command leaves the output path untouched (%s)" % ("absent" if want is None else "%d bytes" % len(want)),
+                            "absent" if got is None else "%d bytes" % len(got))
+                if r["consumed"] != 1:
+                    return ("the command fails with exit 1", "exit %d" % r["consumed"])
+                return no_stray(r)
+            cases.append(CliCase("%s, output path %s" % (cls, "absent" if pre is None else "sentinel"), argv, fs, pw=pw, stdin=sin, rnd=rnd,
+                                 watch=["out"], tags=["model:" + cls.split(":")[0]], oracle=untouched))
+    return cases
+
+
+def c14_model_cases(ctx, mw, root):
+    """histories of key generate -o F, each step started from the REAL file the previous step left"""
+    rng = ctx.rng
+    b1 = mw.block["alice"]
+    states = [("absent", None), ("empty", b""), ("one-key-newline", b1), ("one-key-no-newline", b1[:-1])]
+    if ctx.thorough():
+        states += [("two-keys", b1 + b"\n" + mw.block["bob"]), ("comments", b"# keys\n\n" + b1 + b"\n# end\n")]
+    lens = [1, 2, 3, 2, 3, 1]
+    H = []
+    for i, (nm, init) in enumerate(states):
+        names = rng.sample(["n1", "Bob B", "k\u00e9y \U0001F511", "x=y", "e" * 128, "# h"], lens[i])
+        H.append({"state": nm, "files": {} if init is None else {"F": init}, "names": names,
+                  "pws": [rng.choice(PROC_PASSWORDS) for _ in names]})
+    out = []
+    for step in range(3):
+        batch = []
+        for h in H:
+            if step < len(h["names"]):
+                c = CliCase("generate #%d into F, initially %s" % (step + 1, h["state"]), ["key", "generate", "-o", "F", "--env-pass"],
+                            h["files"], pw=h["pws"][step], stdin=h["names"][step].encode("utf-8") + b"\n", rnd=ctx.rbytes(64), watch=["F"],
+                            tags=["model:generate-%s" % h["state"]], oracle=no_stray)
+                batch.append((h, c))
+        exec_cli_cases([c for _, c in batch], os.path.join(root, "s%d" % step))
+        for h, c in batch:
+            f = c.result["after"].get("F")
+            h["files"] = {} if f is None else {"F": f}
+            out.append(c)
+    return out
+
+
+def c16_model_cases(ctx, mw):
+    S, pw = mw.locked["alice"].decode(), mw.pw["alice"]
+    CP = ["key", "change-pass", S, "--env-pass"]
+    XP = ["key", "extract-pub", S, "--env-pass"]
+    L = [("change-pass", CP, pw, b"new password ", ctx.rbytes(32)),
+         ("change-pass to trailing U+3000", CP, pw, "wide\u3000".encode("utf-8"), ctx.rbytes(32)),
+         ("change-pass to empty", ["key", "change-pass", "--env-pass", S], pw, b"", ctx.rbytes(32)),
+         ("change-pass wrong old password", CP, b"wrong", b"new", ctx.rbytes(32)),
+         ("change-pass unset new password", CP, pw, None, ctx.rbytes(32)),
+         ("change-pass unset password", CP, None, b"new", ctx.rbytes(32)),
+         ("change-pass malformed key", ["key", "change-pass", S[:-4], "--env-pass"], pw, b"new", ctx.rbytes(32)),
+         ("change-pass not base64", ["key", "change-pass", "!!" + S[2:], "--env-pass"], pw, b"new", ctx.rbytes(32)),
+         ("change-pass other version", ["key", "change-pass", base64.b64encode(b"egk1" + b64_lenient(mw.locked["alice"])[4:]).decode(), "--env-pass"],
+          pw, b"new", ctx.rbytes(32)),
+         ("change-pass no key", ["key", "change-pass", "--env-pass"], pw, b"new", ctx.rbytes(32)),
+         ("change-pass no terminal", ["key", "change-pass", S], pw, b"new", ctx.rbytes(32)),
+         ("extract-pub", XP, pw, None, b""),
+         ("extract-pub wrong password", XP, b"pw-alice ", None, b""),
+         ("extract-pub malformed key", ["key", "extract-pub", "ZWdrMA", "--env-pass"], pw, None, b""),
+         ("extract-pub two keys", XP + [S], pw, None, b""),
+         ("generate to stdout", ["key", "gen", "--env-pass"], b"gen pw\t", None, ctx.rbytes(64))]
+    return [CliCase(lbl, argv, {}, pw=p, npw=n, stdin=(b"fresh key\n" if argv[1] == "gen" else b""), rnd=r,
+                    tags=["model:" + " ".join(lbl.split()[:1])], oracle=no_stray) for (lbl, argv, p, n, r) in L]
+
+
+def model_cli_part(ctx, build):
+    """build(ctx, mw, root) -> executed-or-not CliCases; runs the processes still missing, then the model comparison"""
+    root = tempfile.mkdtemp(prefix="kv_model_", dir="/tmp")
+    try:
+        mw = ModelWorld(ctx)
+        cases = build(ctx, mw, root)
+        todo = [c for c in cases if c.result is None]
+        if todo:
+            exec_cli_cases(todo, os.path.join(root, "x"))
+        k_run_cases(ctx, cases, model=True, prelude=cli_prelude(), tag=ctx.pid + "m")
+        ctx.distribution["model:cli-runs-compared"] = ctx.distribution.get("model:cli-runs-compared", 0) + len(cases)
+    finally:
+        shutil.rmtree(root, ignore_errors=True)
+
+
+def model_expect_case(ctx, case):
+    """what Model/CliGlue.v::real_cli_main says about one CliCase: dict(status, exit, stdout, extra) or None"""
+    case.id = "1"
+    table = kdf_table_par(ctx.bin, [case])
+    if case.result is None:
+        case.result = {"code": 0, "out": b"", "consumed": 0, "trace": [], "extra": b""}
+    shown = vlib.run_model([case], table, ctx.pid + "e", extra_import=MODEL_IMPORT, prelude=cli_prelude(), show=True)
+    import re
+    m = re.match(r'\s*(\d+),\s*"([0-9a-fA-F]*)",\s*(\d+),\s*\[.*?\],\s*"([0-9a-fA-F]*)"', shown.get("1", ""))
+    if not m:
+        return None
+    return {"status": int(m.group(1)), "exit": int(m.group(3)), "stdout": bytes.fromhex(m.group(2)), "extra": bytes.fromhex(m.group(4))}
